@@ -45,7 +45,7 @@ def gen_cases(ctx):
         else:
             case = _gen_unary(rng, rng.choice(classes), rng.choice(UNARY + BIN_OPS[4:]))
         if case is not None:
-            case["followups"] = [rng.choice(["transpose", "scalar_mul", "scalar_div", "add_jitter", "sum", "unsqueeze", "expand", "add_tensor", "squeeze"])
+            case["followups"] = [rng.choice(["transpose", "scalar_mul", "scalar_div", "add_jitter", "sum", "unsqueeze", "expand", "add_tensor", "squeeze", "repeat", "repeat"])
                                  for _ in range(rng.choice([0, 0, 1, 2]))]
             case["rseed"] = rng.randrange(1 << 30)
             yield case
@@ -389,6 +389,9 @@ def run_case(case, ctx):
             params["dim"] = -3 if nb else -1
         if f in ("squeeze", "unsqueeze"):
             params["dim"] = 0
+        if f == "repeat":
+            # one batch dimension MORE than the result has (repeat of a repeat / of an expanded result pads the earlier counts)
+            params["sizes"] = [3] + [1 + (j % 2) for j in range(nb)] + [1, 1]
         if f == "add_jitter" and shape[-1] != shape[-2]:
             continue
         if f == "squeeze" and (nb == 0 or shape[0] != 1):
